@@ -95,8 +95,8 @@ AllComponents(x) == <<x.re>> \o (IF x.k = "F" THEN <<>> ELSE x.d)
 TameBy(x, bound) == \A i \in 1..Len(AllComponents(x)) : FIsFinite(AllComponents(x)[i]) /\ FLt(FAbs(AllComponents(x)[i]), bound)
 Tame(x) == TameBy(x, Big)
 \* for comparisons, which look at values only and are defined by IEEE arithmetic for NaN too (every ordering false, != true)
-CmpTame(x) == (FIsNaN(x.re) \/ (FIsFinite(x.re) /\ FLt(FAbs(x.re), Big)))
-              /\ \A i \in 2..Len(AllComponents(x)) : FIsFinite(AllComponents(x)[i]) /\ FLt(FAbs(AllComponents(x)[i]), Big)
+\* (and for the infinities: inf <= inf is TRUE) - any value at all, tame derivatives
+CmpTame(x) == \A i \in 2..Len(AllComponents(x)) : FIsFinite(AllComponents(x)[i]) /\ FLt(FAbs(AllComponents(x)[i]), Big)
 Huge == FOfStr("1e13")
 
 \* ---- comparing a recorded concrete number with a rule result --------------------------------
